@@ -1,10 +1,33 @@
 /-! Declarations of the foreign (cosmwasm_std) types that translated runtime-library functions build. Hand-written and
-trusted to mirror cosmwasm-std 2.2: the two instantiate variants of `WasmMsg`, field for field. `Binary` and `Coin` are opaque. -/
+trusted to mirror cosmwasm-std 2.2: the instantiate, execute and admin variants of `WasmMsg`, field for field. `Binary` and `Coin` are opaque. -/
 namespace RustExtern
 
 inductive WasmMsg (Binary Coin : Type) where
   | Instantiate (admin : Option String) (code_id : Nat) (msg : Binary) (funds : List Coin) (label : String)
   | Instantiate2 (admin : Option String) (code_id : Nat) (label : String) (msg : Binary) (funds : List Coin) (salt : Binary)
+  | Execute (contract_addr : String) (msg : Binary) (funds : List Coin)
+  | UpdateAdmin (contract_addr : String) (admin : String)
+  | ClearAdmin (contract_addr : String)
+
+/-- `std::borrow::Cow`: an owned or a borrowed value; dereferences to the value either way -/
+inductive Cow (α : Type) where
+  | Owned (a : α)
+  | Borrowed (a : α)
+deriving DecidableEq, Repr
+
+def Cow.get {α : Type} : Cow α → α
+  | .Owned a => a
+  | .Borrowed a => a
+
+/-- deref coercion `&Cow<T>` -> `&T` -/
+instance {α : Type} : Coe (Cow α) α := ⟨Cow.get⟩
+
+/-- `ToString::to_string` on the types the handles use: `str` / `String` / `Addr` (an address is its string), through `Cow` -/
+class ToStr (α : Type) where
+  toStr : α → String
+export ToStr (toStr)
+instance : ToStr String := ⟨id⟩
+instance {α : Type} [ToStr α] : ToStr (Cow α) := ⟨fun c => toStr c.get⟩
 
 end RustExtern
 
